@@ -65,7 +65,8 @@ IsPrefixDec(p, s) == Len(p) <= Len(s) /\ \A k \in DOMAIN p : Dec(s[k]) = p[k]
 NoRouteRec == [src |-> <<>>, strip |-> <<>>, prepend |-> <<>>, hostopt |-> "", tquery |-> <<>>,
                code |-> [txt |-> "", num |-> 0],
                tpl |-> [scheme |-> "", host |-> "", pre |-> <<>>, var |-> FALSE, slash |-> FALSE, query |-> <<>>],
-               admitted |-> TRUE]
+               admitted |-> TRUE,
+               ghost |-> FALSE]        \* the route's host is a pattern that several request hosts match
 NoHdr  == [mode |-> "none", vals |-> <<>>]
 NoManaged == [clientip |-> NoHdr, xff |-> NoHdr, xrealip |-> NoHdr, tlshdr |-> NoHdr,
               xfproto |-> NoHdr, forwarded |-> NoHdr, xfport |-> NoHdr, xfhost |-> NoHdr]
@@ -102,6 +103,9 @@ Location(r, raw, q) ==
      qmode  |-> IF r.tpl.query # <<>> \/ r.tpl.var THEN "eq" ELSE "any",
      query  |-> IF r.tpl.query # <<>> THEN r.tpl.query ELSE IF r.tpl.var THEN q ELSE <<>>]
 NormPath(p) == IF p = <<>> THEN <<"/">> ELSE p
+\* a history: the requests (host, path, query) that went through the same route one after the other, the case's own
+\* request last.  A redirect route answers each of them from that request alone ("req" = its own host).
+HistAnswers(r) == [k \in DOMAIN c.hist |-> Location(r, c.hist[k].path, c.hist[k].query)]
 Sent(h)     == c.forged[h] # "absent"
 \* the scheme of the request: what the proxy in front said, else what the connection is
 ReqScheme   == IF Sent("xfproto") THEN c.xfpval ELSE IF c.tls THEN "https" ELSE "http"
@@ -250,6 +254,11 @@ STSOnlyOnTLS == (pc = "done" /\ out.kind = "upstream" /\ ~c.tls) => out.sts = Eq
 RedirectStatusIs3xx == (pc = "done" /\ out.kind = "redirect") => out.status >= 300 /\ out.status <= 399
 NeverRedirectsToItself == (pc = "done" /\ out.kind = "redirect") =>
                              ~(out.loc.scheme = ReqScheme /\ out.loc.host = "req" /\ NormPath(out.loc.path) = c.path)
+HistoryIndependent == (pc = "done" /\ out.kind = "redirect" /\ c.hist # <<>>) =>
+                          /\ out.loc = HistAnswers(route)[Len(c.hist)]
+                          /\ \A j, k \in DOMAIN c.hist :
+                                (c.hist[j].path = c.hist[k].path /\ c.hist[j].query = c.hist[k].query)
+                                   => HistAnswers(route)[j] = HistAnswers(route)[k]     \* whatever came in between, whoever asked
 RedirectCarriesQuery == (pc = "done" /\ out.kind = "redirect" /\ route.tpl.var) =>
                              out.loc.query = (IF route.tpl.query = <<>> THEN c.query ELSE route.tpl.query)
 =============================================================================
